@@ -118,6 +118,13 @@ def check_graph(r, k, G, depths=(0, 1, 2, 3, 4), leaf_from=None):
             r.out.add((d, len(e)))
     if acc.tobytes() != before:
         r.v(pre + 'argument-modified', 'graph', case)
+    if lm_ok:
+        try:
+            now = {int(x): [int(y) for y in lm[x]] for x in lm}
+        except Exception:
+            now = None
+        if now != exp:
+            r.v(pre + 'latter-map-argument-modified-by-a-query', 'graph', case, exp if n <= 16 else None, now if n <= 16 else None)
     degs = {len(O.outs(G, v)) for v in range(n)}
     if len(degs) > 2:
         r.nontriv += 1
